@@ -1,0 +1,20 @@
+//go:build verif
+
+package slice
+
+// Contracts for the verifier in /verif (comment-only file; no declarations).
+
+//@ func Uniform(ndims, val) returns (r)
+//@   safety C02 C01
+//@   requires ndims >= 0
+//@   fresh r
+//@   assigns nothing
+//@   ensures [C02.uniform] len(r) == ndims && forall(k, 0, ndims, r[k] == val)
+//@   loop 0 invariant 0 <= i && i <= ndims && forall(k, 0, i, result[k] == val)
+
+//@ func Ones(ndims) returns (r)
+//@   safety C02 C01
+//@   requires ndims >= 0
+//@   fresh r
+//@   assigns nothing
+//@   ensures [C02.ones] len(r) == ndims && forall(k, 0, ndims, r[k] == 1)
